@@ -95,9 +95,19 @@ def _add_shared(g: dict, rng: random.Random) -> list[str]:
         if not has_default:
             # graph A holds the closure made with key clA; the variant graph B holds its sibling made with key clB
             # under the same node name and output name (see _variant_graph)
-            g["nodes"].append({"kind": "fn", "name": "cl", "fid": "clA", "closure": True, "params": [{"name": "a"}], "rename_inputs": {"a": src}, "outs": ["cl_o"], "cache": True})
+            if rng.random() < 0.5:
+                g["nodes"].append({"kind": "fn", "name": "cl", "fid": "clA", "closure": True, "params": [{"name": "a"}], "rename_inputs": {"a": src}, "outs": ["cl_o"], "cache": True})
+            else:
+                # siblings capturing values of different type that print alike: 1 and "1"
+                g["nodes"].append({"kind": "fn", "name": "cl", "fid": "cl:1", "closure": True, "salt_base": "cl", "salt": 1, "params": [{"name": "a"}], "rename_inputs": {"a": src}, "outs": ["cl_o"], "cache": True})
             g["order"].append(len(g["nodes"]) - 1)
             shared.append("closure_twins")
+    if rng.random() < 0.3:
+        # a cacheable node that consumes (mutates in place) a list argument; the history also calls it with the emptied list
+        g["nodes"].append({"kind": "fn", "name": "dr", "params": [{"name": "drq"}], "outs": ["dr_o"], "cache": True, "beh": "drain", "beh_param": "drq"})
+        g["order"].append(len(g["nodes"]) - 1)
+        g["ext"].append("drq")
+        shared.append("drain")
     return shared
 
 
@@ -115,7 +125,11 @@ def _variant_graph(g: dict, variant: dict | None) -> dict:
     if variant.get("closure"):
         for nd in g2["nodes"]:
             if nd.get("closure"):
-                nd["fid"] = "clB"  # the factory's other product: same source text, another captured value
+                if "salt" in nd:
+                    nd["salt"] = "1"
+                    nd["fid"] = "cl:'1'"
+                else:
+                    nd["fid"] = "clB"  # the factory's other product: same source text, another captured value
     return g2
 
 
@@ -172,7 +186,9 @@ def _started(proc) -> list[str]:
 
 def _variant_values(base, variant: int):
     def f(graph):
-        v = base(graph)
+        v = copy.deepcopy(base(graph))  # node functions may consume list arguments in place
+        if "drq" in v or any(n == "dr" for n in getattr(graph, "nodes", {})):
+            v["drq"] = [] if variant else [3, 1, 2]
         if variant:
             for k in sorted(v):
                 if isinstance(v[k], int):
